@@ -54,3 +54,9 @@ func ZzC02U4L4() { zzC02(zzU4(), 4) }
 func ZzC02U1L4() { zzC02(zzU1(), 4) }
 func ZzC02U2L4() { zzC02(zzU2(), 4) }
 func ZzC02U5L4() { zzC02(zzU5(), 4) }
+func ZzC02U7L3()  { zzC02(zzU7(), 3) }
+func ZzC02U8L3()  { zzC02(zzU8(), 3) }
+func ZzC02U1zL3() { zzC02(zzU1z(), 3) }
+func ZzC13U7L3()  { zzC13(zzU7(), 3) }
+func ZzC13U8L3()  { zzC13(zzU8(), 3) }
+func ZzC13U1zL3() { zzC13(zzU1z(), 3) }
